@@ -254,11 +254,6 @@ func (e *badRootExec) ModelLine(line string) string {
 	if fm == "" {
 		fm = "-"
 	}
-	if (fm == "-" || fm == "v1marshaler") && e.root.Link != nil && p["top"] != "missing" {
-		// decoding of the v1marshaler format is not modelled (encoding/json); the harness's
-		// own restatement of C19 is the only oracle for these loads
-		return "echo " + e.last
-	}
 	kk := e.cfg.KK
 	if p["kk"] != "same" {
 		kk = p["kk"]
@@ -363,6 +358,57 @@ func genBadRootCase(r *rand.Rand) Case {
 		}
 		return hex.EncodeToString(b)
 	}
+	mkTopJSON := func(kind string) string {
+		if kind == "missing" {
+			return "missing"
+		}
+		ks := append([]uint64{}, uni...)
+		r.Shuffle(len(ks), func(i, j int) { ks[i], ks[j] = ks[j], ks[i] })
+		n := 1 + r.Intn(4)
+		if n > len(ks) {
+			n = len(ks)
+		}
+		ks = ks[:n]
+		sortU(ks)
+		var kb, vb []string
+		for _, k := range ks {
+			kb = append(kb, string(jsonKey(cfg, k)))
+			vb = append(vb, "1")
+		}
+		nl := 0
+		switch kind {
+		case "unsorted":
+			if len(kb) >= 2 {
+				kb[0], kb[1] = kb[1], kb[0]
+			}
+		case "morekeys":
+			vb = vb[:len(vb)-1]
+		case "morelinks":
+			nl = len(kb) + 2
+		case "fewlinks":
+			nl = len(kb)
+		case "dupkey":
+			if len(kb) >= 2 {
+				kb[1] = kb[0]
+			}
+		}
+		s := `{"Key":[` + strings.Join(kb, ",") + `],"Value":[` + strings.Join(vb, ",") + `]`
+		if nl > 0 {
+			ls := make([]string, nl)
+			for i := range ls {
+				ls[i] = "null"
+			}
+			s += `,"Link":[` + strings.Join(ls, ",") + `]`
+		}
+		s += "}"
+		if kind == "truncated" {
+			s = s[:r.Intn(len(s))]
+		}
+		if len(s) == 0 {
+			return "-"
+		}
+		return hex.EncodeToString([]byte(s))
+	}
 	for i := 0; i < 12+r.Intn(12); i++ {
 		p := map[string]string{"fmt": "same", "kk": "same", "h": "same", "bf": "same", "order": "asc", "top": "same"}
 		switch r.Intn(9) {
@@ -389,7 +435,11 @@ func genBadRootCase(r *rand.Rand) Case {
 				p["top"] = mkTop(pick(r, kinds))
 				p["h"] = pick(r, []string{"same", "0", "0", "1"})
 			} else {
-				p["top"] = "missing"
+				// hand-written top nodes in the canonical v1marshaler shape
+				p["top"] = mkTopJSON(pick(r, []string{"good", "good", "unsorted", "morekeys", "morelinks", "fewlinks", "dupkey", "truncated", "missing"}))
+				if p["top"] != "missing" {
+					p["h"] = pick(r, []string{"same", "0", "0", "1"})
+				}
 			}
 		}
 		line := fmt.Sprintf("try fmt=%s kk=%s h=%s bf=%s order=%s top=%s", p["fmt"], p["kk"], p["h"], p["bf"], p["order"], p["top"])
@@ -409,7 +459,7 @@ var badRootRunner = Runner{Mk: func(c Cfg) Executor { return &badRootExec{cfg: c
 }}
 
 func famBadRoots(f *FamCtx) {
-	f.Report.Rule = "a good persisted version, then LoadMast of perturbed roots (half of those that keep the stored top node also with a node cache warmed by a correctly configured reader): unknown/alternative format strings, missing top node, recorded height and branch factor changed, reversed KeyCompare, another key kind in the loader, hand-encoded binary top nodes (unsorted, duplicate key, more keys than values, too many / too few links, truncated, bit-flipped, huge count); outcome enum ok|err|panic|hang compared with the Lean loader model (binary format) and with the harness's own restatement of C19's rejecting conditions; non-trivial = every case (each holds >= 12 perturbed loads)"
+	f.Report.Rule = "a good persisted version, then LoadMast of perturbed roots (half of those that keep the stored top node also with a node cache warmed by a correctly configured reader): unknown/alternative format strings, missing top node, recorded height and branch factor changed, reversed KeyCompare, another key kind in the loader, hand-encoded top nodes of both formats (unsorted, duplicate key, more keys than values, too many / too few links, truncated; binary also bit-flipped and huge count); outcome enum ok|err|panic|hang compared with the Lean loader model (both formats) and with the harness's own restatement of C19's rejecting conditions; non-trivial = every case (each holds >= 12 perturbed loads)"
 	rn := badRootRunner
 	f.Sig = func(o Outcome) string {
 		if strings.HasPrefix(o.Viol, "KF-cache-other-config: ") {
